@@ -14,7 +14,8 @@ def ev_cfg(n, mb, dev):
 
 def to_scenario(sid, hist):
     peers = ["p1", "p2"]
-    steps = [{"op": "tick", "d": 0, "k": 1}, {"op": "room", "p": "p1", "room": "R1"}, {"op": "pull", "p": "p2", "q": "p1", "room": "R1"}]
+    steps = [{"op": "tick", "d": 0, "k": 1}, {"op": "room", "p": "p1", "room": "R1"}, {"op": "pull", "p": "p2", "q": "p1", "room": "R1"},
+             {"op": "tick", "d": 0, "k": 2}, {"op": "room", "p": "p1", "room": "R2"}, {"op": "pull", "p": "p2", "q": "p1", "room": "R2"}]
     d, k = 0, 10
     for h in hist:
         if h["op"] == "day":
@@ -23,8 +24,8 @@ def to_scenario(sid, hist):
         k += 1
         steps.append({"op": "tick", "d": d, "k": k})
         st = dict(h)
-        st["room"] = "R1"
-        if st["op"] == "put":
+        st.setdefault("room", "R1")
+        if st["op"] in ("put", "move"):
             st["text"] = "t%d" % k
         if st["op"] == "stream":
             st["items"] = [{"row": r, "ent": "A" if r in ("x1", "x2") else "B", "text": "s%d%s" % (k, r)} for r in sorted(st.pop("rows"))]
@@ -32,6 +33,12 @@ def to_scenario(sid, hist):
             st["norecompute"] = True      # the library's own recomputation request is what is being checked
             if st.pop("abort"):
                 st["abort"] = 0
+            # both rooms are synchronised
+            steps.append(st)
+            k += 1
+            steps.append({"op": "tick", "d": d, "k": k})
+            st = dict(st)
+            st["room"] = "R2"
         steps.append(st)
     return {"sid": sid, "peers": peers, "users": {p: "u1" for p in peers}, "steps": steps, "hist": hist, "events": True}
 
